@@ -149,6 +149,15 @@ pub fn soup(seed: u64) -> Program {
             }
         }
     }
+    // a macro defined in terms of an earlier one: the same definition text means something else
+    // in a program where the earlier macro has another value
+    if let Some(base) = macros.iter().find(|m| m.1 == 0).map(|m| m.0.clone()) {
+        if r.chance(1, 2) {
+            let n = ["TOTAL", "SUM"][r.usize_below(2)];
+            head.push_str(&format!("#define {} ({} + {})\n", n, base, 1 + r.below(2)));
+            macros.push((n.to_string(), 0));
+        }
+    }
     let use_macro = |r: &mut Rng, macros: &Vec<(String, usize)>| -> Option<String> {
         let nums: Vec<&(String, usize)> = macros.iter().filter(|m| m.1 != 9).collect();
         if nums.is_empty() {
